@@ -298,8 +298,9 @@ def scenarios(tier, seed):
     out.append({"class": rng.choice(classes), "signal": "TERM", "bind": "tcp", "graceful": 2, "phases": ["app"], "duration": "never",
                 "retire": "HUP"})
     # the pid file does not hold a pid any more when the server is stopped
-    out.append({"class": rng.choice(classes), "signal": rng.choice(["TERM", "INT"]), "bind": "unix", "graceful": 3, "phases": ["app", "keepalive"],
-                "duration": "finishes", "app_delay": 0.4, "pidfile_garbage": rng.choice(["\n", "not-a-pid\n", ""])})
+    for junk in ("\n", rng.choice(["not-a-pid\n", "12x", "1234 gunicorn\n", "\x00\x00"])):
+        out.append({"class": rng.choice(classes), "signal": rng.choice(["TERM", "INT", "QUIT"]), "bind": "unix", "graceful": 3,
+                    "phases": ["app", "keepalive"] if junk == "\n" else ["idle"], "duration": "finishes", "app_delay": 0.4, "pidfile_garbage": junk})
     # two listeners, the request in flight on one of them while the other is idle
     for wc in classes:
         out.append({"class": wc, "signal": "TERM", "bind": "both", "graceful": 5, "phases": ["app", "stream"],
